@@ -122,8 +122,10 @@ class Tuple(ContainNestedFieldMixin, TypedField, metaclass=_CollectionMeta):
         if items is not None:
             if isinstance(items, Field):
                 if isinstance(items, ClassReference):
-                    serializer = items._ty.serialize
-                    self._serialize = lambda value: [serializer(x) for x in value]
+                    item_class = items._ty  # `serialize` is looked up at every call
+                    self._serialize = lambda value: [
+                        item_class.serialize(x) for x in value
+                    ]
                     return self._serialize(value)
                 serialize = items.serialize
                 self._serialize = lambda value: [serialize(x) for x in value]
